@@ -84,9 +84,9 @@ def reqAlg (d : AttrDict) (msg : String) : R Nat :=
   | some _ => ierr "algorithm value"
   | none => kerr Rsn.invalidField msg
 
-def reqLen (d : AttrDict) (msg : String) : R Nat :=
+def reqLen (d : AttrDict) (msg : String) : R Int :=
   match d.get "Cryptographic Length" with
-  | some (.single (.int l)) => if l < 0 then ierr "negative length" else pure l.toNat
+  | some (.single (.int l)) => pure l
   | some _ => ierr "length value"
   | none => kerr Rsn.invalidField msg
 
@@ -110,15 +110,15 @@ def opCreate (c : Ctx) (e : Engine) (otype : Nat) (tmpl : Option Template) (cr :
   let len ← reqLen d "The cryptographic length must be specified as an attribute."
   reqMask d "The cryptographic usage mask must be specified as an attribute."
   let token ← cryptoToken cr
-  if hexBytes token * 8 != len then ierr "SymmetricKey.validate: length mismatch" else
-  let o ← setAttrs c { newObj OT.symmetricKey token with alg := some alg, len := some len, format := some 1 } d
+  if (hexBytes token * 8 : Int) != len then ierr "SymmetricKey.validate: length mismatch" else
+  let o ← setAttrs c { newObj OT.symmetricKey token with alg := some alg, len := some len.toNat, format := some 1 } d
   pure (.insert [finalize c e o], .uid (toString e.store.nextUid))
 
 /-! ### CreateKeyPair -/
 def mergeCommon (common specific : AttrDict) : AttrDict :=
   common.foldl (fun acc kv => if acc.any (·.1 == kv.1) then acc else acc ++ [kv]) specific
 
-def requireKeyAttrs (d : AttrDict) (which : String) : R (Nat × Nat) := do
+def requireKeyAttrs (d : AttrDict) (which : String) : R (Nat × Int) := do
   let alg ← reqAlg d s!"The cryptographic algorithm must be specified as an attribute for the {which} key."
   let len ← reqLen d s!"The cryptographic length must be specified as an attribute for the {which} key."
   reqMask d s!"The cryptographic usage mask must be specified as an attribute for the {which} key."
@@ -136,8 +136,8 @@ def opCreateKeyPair (c : Ctx) (e : Engine) (common priv pub : Option Template) (
   if pk.1 != sk.1 then kerr Rsn.invalidField "The public and private key algorithms must be the same." else
   if pk.2 != sk.2 then kerr Rsn.invalidField "The public and private key lengths must be the same." else
   let t ← cryptoPair cr
-  let po ← setAttrs c { newObj OT.publicKey t.1 with alg := some pk.1, len := some pk.2, format := some t.2.2.1 } dpub
-  let so ← setAttrs c { newObj OT.privateKey t.2.1 with alg := some pk.1, len := some pk.2, format := some t.2.2.2 } dpriv
+  let po ← setAttrs c { newObj OT.publicKey t.1 with alg := some pk.1, len := some pk.2.toNat, format := some t.2.2.1 } dpub
+  let so ← setAttrs c { newObj OT.privateKey t.2.1 with alg := some pk.1, len := some pk.2.toNat, format := some t.2.2.2 } dpriv
   pure (.insert [finalize c e po, finalize c e so],
         .keyPair (toString (e.store.nextUid + 1)) (toString e.store.nextUid))
 
@@ -311,8 +311,7 @@ def compareFilter (o : Obj) (t : DateTrack) (a : TAttr) (got : Got) : R FilterSt
   | some .mask =>
     match a.value, got with
     | .int v, .single (.int x) =>
-      if v < 0 then ierr "negative mask" else
-      passIf t (((v.toNat &&& Mask.all) &&& (Mask.all ^^^ x.toNat)) == 0)
+      passIf t (((landMask v Mask.all) &&& (Mask.all ^^^ x.toNat)) == 0)
     | _, _ => ierr "no .value"
   | some .date =>
     match a.value with
